@@ -46,6 +46,9 @@ class SchedWorker(wbase.Worker):
     choices: list = attrs.field(factory=list)
     settle_timeout: float = 20.0
     worker_failures: list = attrs.field(factory=list)  # ordinal numbers of run() calls that fail
+    # ordinal numbers of run() calls whose outcome is *reported late*: the job has finished (its
+    # result is on disk) but the worker hands the outcome back only after another job completed
+    hold_report: list = attrs.field(factory=list)
     pool: object = attrs.field(default=None, init=False, eq=False, repr=False)
     outstanding: dict = attrs.field(factory=dict, init=False, eq=False, repr=False)
     sched_task: object = attrs.field(default=None, init=False, eq=False, repr=False)
@@ -71,7 +74,18 @@ class SchedWorker(wbase.Worker):
         fn = _run_fail_before_start if self.n_run_calls in self.worker_failures else _run
         fut = self.loop.run_in_executor(self.pool, fn, cp.dumps(job), rerun)
         self.outstanding[key] = fut
-        return await fut
+        if self.n_run_calls not in self.hold_report:
+            return await fut
+        try:
+            return await fut
+        finally:
+            n_done = sum(1 for f in self.outstanding.values() if f.done())
+            t0 = time.monotonic()
+            while time.monotonic() - t0 < 5.0:
+                others_live = [f for f in self.outstanding.values() if not f.done()]
+                if not others_live or sum(1 for f in self.outstanding.values() if f.done()) > n_done:
+                    break
+                await asyncio.sleep(0.002)
 
     def _entered(self):
         try:
@@ -160,20 +174,20 @@ def set_failures(gate, tokens):
 
 
 def run_scheduled(task, cache_root, gate, choices, max_concurrent=None, n_procs=12,
-                  worker_failures=(), raise_errors=False, **sub_kw):
+                  worker_failures=(), raise_errors=False, hold_report=(), rerun=False, **sub_kw):
     """Run `task` under the schedule-owning worker.  -> (result or exception, worker)"""
     from pydra.engine.submitter import Submitter
 
     os.environ["VERIF_GATE"] = gate
     w = SchedWorker(gate=gate, choices=list(choices), n_procs=n_procs,
-                    worker_failures=list(worker_failures))
+                    worker_failures=list(worker_failures), hold_report=list(hold_report))
     kw = dict(sub_kw)
     if max_concurrent is not None:
         kw["max_concurrent"] = max_concurrent
     try:
         try:
             with Submitter(worker=w, cache_root=cache_root, **kw) as sub:
-                res = sub(task, raise_errors=raise_errors)
+                res = sub(task, raise_errors=raise_errors, rerun=rerun)
             return res, w
         except Exception as e:  # the caller's oracle decides what an exception means
             return e, w
